@@ -5,6 +5,8 @@ package storage
 import (
 	"fmt"
 	"math/big"
+	"os"
+	"runtime/pprof"
 	"sort"
 	"sync"
 	"testing"
@@ -86,96 +88,41 @@ func c01Oracle(e *txgEnv, tx *common.VersionedTransaction) (string, string) {
 	return "", ""
 }
 
-func c01Amounts() []txgAmount {
-	return []txgAmount{
-		txgAmt("1u", big.NewInt(1)), txgAmt("5", txgXIN(5)), txgAmt("7", txgXIN(7)), txgAmt("12", txgXIN(12)),
-		txgAmt("2^64u", txgPow2(64)), txgAmt("2^256-1u", new(big.Int).Sub(txgPow2(256), big.NewInt(1))),
-	}
-}
-
 func TestMC_C01(t *testing.T) {
 	c := verifmc.Start(t, "C01", "exploration")
 	defer c.Finish()
-	c.SetRule("full product of asset {XIN,BTC,never-seen} x input lists (all sequences of length 1..L over {xin5, xin7, btc5, missing, duplicate-of-previous, deposit(a), mint(a), genesis}, a over the amount menu only when the list has a deposit/mint) x output lists (all sequences of length 1..L over kind x amount) x ledger states x snapshot times; correct signatures, type-appropriate extra/references; every transaction goes through Marshal->Unmarshal; a case is counted distinct/non-trivial when its (ledger,time,shape) is new and the real TransactionType() is not Unknown")
-	c.Assume("signatures are always the correct ones (authorization is C02)", "ledger states are prefixes built by a deterministic wallet through real Validate+LockInputs+WriteTransaction+WriteSnapshot", "one-time output keys are unique per case so that the key reservation side effect of Validate cannot couple cases")
+	if pf := os.Getenv("TXG_PROF"); pf != "" {
+		f, _ := os.Create(pf)
+		pprof.StartCPUProfile(f)
+		defer pprof.StopCPUProfile()
+	}
+	c.SetRule("full product of asset {XIN,BTC,never-seen} x input lists (all sequences over {xin5, xin7, btc5, missing, duplicate-of-previous, deposit(a), mint(a), genesis}; a over the 6-amount menu only when the list has a deposit/mint) x output lists (all sequences over kind x amount, amounts {1u,5,7,12,2^64u,2^256-1u} and 0) x ledger states x snapshot times (all > epoch+1ns); quick: lists of length 1..2; thorough: larger output alphabet, 6 ledgers, 3 times, plus input lists of length 3 and output lists of length 3; correct signatures, type-appropriate extra/references; every transaction goes through Marshal->Unmarshal; a case is counted distinct/non-trivial when its (ledger,time,shape) is new and the real TransactionType() of the decoded transaction is not Unknown")
+	c.Assume("signatures are always the correct ones (authorization is C02)", "ledger states are prefixes built by a deterministic wallet through real Validate+LockInputs+WriteTransaction+WriteSnapshot", "one-time output keys are unique per case so that the key reservation side effect of Validate (LockGhostKeys) cannot couple cases; they are valid prime-order points, not derived for an account", "valid signatures are produced with a fixed nonce per key (harness-only keys)")
 
-	amounts := c01Amounts()
-	zero := txgAmt("0", big.NewInt(0))
-	inAlpha := []txgIn{{txgInRef, "xin5"}, {txgInRef, "xin7"}, {txgInRef, "btc5"}, {txgInRef, "missing"}, {Kind: txgInDup}, {Kind: txgInDeposit}, {Kind: txgInMint}, {Kind: txgInGenesis}}
-	// output alphabet: kind x amount
-	var outAlpha []txgOut
-	kinds := []uint8{common.OutputTypeScript, common.OutputTypeWithdrawalSubmit, common.OutputTypeNodePledge, 0x77}
-	if c.Thorough() {
-		kinds = append(kinds, common.OutputTypeNodeRemove, common.OutputTypeWithdrawalClaim, common.OutputTypeCustodianUpdateNodes)
-	}
-	for _, k := range kinds {
-		for _, a := range amounts {
-			outAlpha = append(outAlpha, txgOut{Type: k, Amt: a})
+	var ec txgEnvCache
+	defer ec.close()
+	amounts := txgC01Amounts()
+	blocks := txgC01Blocks(c.Thorough(), ec.get)
+	items := txgItems(blocks, amounts)
+	var bl []string
+	for _, b := range blocks {
+		var en []string
+		for _, e := range b.Envs {
+			en = append(en, e.Name)
 		}
+		bl = append(bl, fmt.Sprintf("%s: %d input lists x %d output lists (alphabets %d/%d) x ledgers %v x times %v", b.Name, len(b.InSeqs), len(b.OutSeqs), len(b.InAlpha), len(b.OutAlpha), en, b.Envs[0].TimeNames[:b.NTimes]))
 	}
-	outAlpha = append(outAlpha, txgOut{Type: common.OutputTypeScript, Amt: zero})
-	maxLen := 2
-	inSeqs := txgSeqs(len(inAlpha), 1, maxLen)
-	outSeqs := txgSeqs(len(outAlpha), 1, maxLen)
-	envNames := []string{"genesis", "deposits", "transfer", "spent"}
-	if c.Thorough() {
-		envNames = append(envNames, "submit", "alltypes")
-	}
-	var envs []*txgEnv
-	for _, n := range envNames {
-		e := txgNewEnv(n)
-		defer e.W.L.Close()
-		envs = append(envs, e)
-	}
-	c.Set("ledger_states", envNames)
-	c.Set("input_lists", len(inSeqs))
-	c.Set("output_lists", len(outSeqs))
+	c.Set("blocks", bl)
+	c.Set("ledgers", ec.describe())
 
-	// work items: (env, time, asset, input list, a)
-	type item struct {
-		env, ti, asset, in, a int
-	}
-	var items []item
-	for ei := range envs {
-		for ti := range envs[ei].Times {
-			for as := range txgAssets {
-				for ii, seq := range inSeqs {
-					special := false
-					for _, k := range seq {
-						special = special || inAlpha[k].Kind == txgInDeposit || inAlpha[k].Kind == txgInMint
-					}
-					na := 1
-					if special {
-						na = len(amounts)
-					}
-					for a := 0; a < na; a++ {
-						items = append(items, item{ei, ti, as, ii, a})
-					}
-				}
-			}
-		}
-	}
 	var mu sync.Mutex
 	accepted := map[string]int{}
 	c.ParallelN(len(items), "C01 product", func(_, k int) {
-		it := items[k]
-		e := envs[it.env]
-		shape := txgShape{Asset: it.asset, InAmt: amounts[it.a], Sig: txgSigCorrect, ExtraLen: -1, Refs: txgRefAuto}
-		for _, x := range inSeqs[it.in] {
-			shape.Ins = append(shape.Ins, inAlpha[x])
-		}
-		for _, os := range outSeqs {
-			shape.Outs = shape.Outs[:0]
-			for _, x := range os {
-				shape.Outs = append(shape.Outs, outAlpha[x])
-			}
-			key := fmt.Sprintf("%s@%s %s", e.Name, e.TimeNames[it.ti], shape.Key())
-			ver := txgBuild(e, &shape, key)
-			res := txgRun(e, ver, e.Times[it.ti])
+		txgRunItem(items[k], amounts, func(e *txgEnv, ti int, shape *txgShape, key string, res *txgResult) {
 			c.Eval(1)
 			if res.Stage != "validated" {
 				c.Outcome(res.Stage)
-				continue
+				return
 			}
 			if res.Tx.TransactionType() != common.TransactionTypeUnknown {
 				c.Distinct(key)
@@ -183,20 +130,22 @@ func TestMC_C01(t *testing.T) {
 			if res.Panic != nil {
 				// not this property's subject (C05); counted, never raised here
 				c.Outcome("panic-in-validate(see C05)")
-				continue
+				return
 			}
 			if res.Err != nil {
 				c.Outcome("reject:" + txgErrClass(res.Err))
-				continue
+				return
 			}
 			c.Outcome("accept")
 			mu.Lock()
 			accepted[fmt.Sprintf("type=%d in=%d out=%d", res.Tx.TransactionType(), len(res.Tx.Inputs), len(res.Tx.Outputs))]++
 			mu.Unlock()
-			c.Sample(map[string]any{"ledger": e.Name, "time": e.TimeNames[it.ti], "shape": shape.Key(), "result": "accept", "tx": verifmc.Hex(res.Raw)})
+			if shape.Ins[0].Kind == txgInRef {
+				c.Sample(map[string]any{"ledger": e.Name, "time": e.TimeNames[ti], "shape": shape.Key(), "result": "accept", "tx": verifmc.Hex(res.Raw)})
+			}
 			if vk, desc := c01Oracle(e, res.Tx); vk != "" {
-				raw, ts := res.Raw, e.Times[it.ti]
-				c.ViolationChecked(vk, fmt.Sprintf("%s; ledger %s time %s shape %s", desc, e.Name, e.TimeNames[it.ti], shape.Key()),
+				raw, ts := res.Raw, e.Times[ti]
+				c.ViolationChecked(vk, fmt.Sprintf("%s; ledger %s time %s shape %s", desc, e.Name, e.TimeNames[ti], shape.Key()),
 					map[string]any{"ledger": e.recipe(), "snapshot_time": ts, "shape": shape.Key(), "transaction_hex": txgHex(raw)},
 					func() bool {
 						err, p, _ := txgReplayRaw(e, raw, ts)
@@ -208,7 +157,7 @@ func TestMC_C01(t *testing.T) {
 						return k2 == vk
 					})
 			}
-		}
+		})
 	})
 	var acc []string
 	for k, n := range accepted {
@@ -217,6 +166,7 @@ func TestMC_C01(t *testing.T) {
 	sort.Strings(acc)
 	c.Set("accepted_by_type_and_arity", acc)
 	c.Require(c.OutcomeCount("accept") >= 50, "vacuous: only %d accepted transactions", c.OutcomeCount("accept"))
-	c.Require(c.OutcomeCount("reject:invalid_input_asset") > 0 && c.OutcomeCount("reject:invalid_input_output_amount") > 0, "vacuous: asset / amount rejections not reached")
-	c.Require(len(accepted) >= 4, "vacuous: accepted transactions of only %d type/arity classes", len(accepted))
+	c.Require(c.OutcomeCount("reject:invalid_input_asset") > 0 && c.OutcomeCount("reject:invalid_input_output_amount") > 0 && c.OutcomeCount("reject:invalid_input") > 0 && c.OutcomeCount("reject:input_locked_for_transaction") > 0,
+		"vacuous: asset / amount / duplicate / locked rejections not all reached")
+	c.Require(len(accepted) >= 6, "vacuous: accepted transactions of only %d type/arity classes", len(accepted))
 }
